@@ -852,6 +852,13 @@ pub fn run(ctx: &mut Ctx, shard: usize, nshards: usize) {
             }
         });
     }
+    // (d2, d3) relational inputs: > 65 535 tiles, inputs beyond 65 536 words, every PRIV (length, prefix) pair
+    if ctx.scale >= 0.5 {
+        let n = gb::relational_inputs(shard, nshards, &mut |b| check(ctx, b));
+        ctx.class_add("relational-inputs(>65535 tiles; inputs beyond 65536 words x 7 length fields x 11 types)", n);
+        let n = gb::sdes_priv_pairs(shard, nshards, &mut |b| check(ctx, b));
+        ctx.class_add("exhaustive:sdes-priv(all 65536 (length, prefix length) pairs)", n);
+    }
     // (e) small-alphabet SDES bodies
     let words = if ctx.scale < 0.5 { 1 } else if thorough { 3 } else { 2 };
     if ctx.scale >= 0.5 {
